@@ -1,6 +1,7 @@
 """Per-property configuration: which harnesses and solver tasks make up each tier, and the text that
 goes into the evidence (functions encoded, bounds, what lies outside them, stubs, assumptions)."""
 from kanirun import Harness
+from smttasks import SmtTask
 
 STD_STUBS = [
     "std::fmt::format -> String::new() on harnesses whose subject is not message text (R4)",
@@ -37,9 +38,8 @@ class Prop:
 def c09():
     p = Prop("C09")
     ops = ["add", "sub", "mul", "div", "mod", "le", "ge", "lt", "gt", "eq", "neq", "and", "or"]
-    quick = {("int", o, "sym") for o in ("add", "sub", "mul", "div", "mod", "lt", "eq", "and")}
-    quick |= {("int", "add", "feeny"), ("int", "mul", "feeny"), ("bool", "and", "sym"), ("bool", "or", "feeny"),
-              ("bool", "eq", "sym"), ("bool", "add", "sym"), ("null", "eq", "sym"), ("null", "neq", "feeny"), ("null", "lt", "sym")}
+    quick = {("int", o, "sym") for o in ("add", "mul", "div", "lt", "eq")}
+    quick |= {("int", "sub", "feeny"), ("bool", "and", "sym"), ("bool", "eq", "feeny"), ("null", "eq", "sym"), ("null", "lt", "sym")}
     for recv in ("int", "bool", "null"):
         for op in ops:
             for sp in ("sym", "feeny"):
@@ -56,20 +56,25 @@ def c09():
                   bound="zero divisor (all dividends) and MIN / -1: only Rust's division panics or Err accepted")
     for recv in ("int", "bool", "null"):
         for n in (1, 2, 3):
-            p.add("h_c09::c09_unknown_%s_len%d" % (recv, n), quick=(n == 1), timeout=900,
+            p.add("h_c09::c09_unknown_%s_len%d" % (recv, n), quick=(n == 2 and recv == "int"), timeout=900,
                   bound="all printable-ASCII method names of length %d outside the documented set" % n)
         for a in (1, 3):
-            p.add("h_c09::c09_arity%d_%s" % (a, recv), quick=(recv == "int"), timeout=600,
+            p.add("h_c09::c09_arity%d_%s" % (a, recv), quick=(recv == "int" and a == 1), timeout=600,
                   bound="call arity %d (built-ins take exactly one argument)" % a)
     p.add("h_c09::c09_ref_division_semantics", quick=True, timeout=300, bound="oracle self-check, 8-bit operands")
     p.add("h_c09::c09_ref_multiplication_semantics", quick=True, timeout=300, bound="oracle self-check, 16-bit operands")
+    p.smt_tasks.append(SmtTask("c09_dispatch_mir", "c09_dispatch.py", quick=True, timeout=900))
     p.functions = ["bytecode::interpreter::eval_call_method", "dispatch_method", "dispatch_null_method",
                    "dispatch_integer_method", "dispatch_boolean_method", "state::OperandStack::{push,pop,pop_sequence}",
                    "state::InstructionPointer::bump", "program::ConstantPool::get", "ProgramObject::as_str"]
     p.bounds = ["operands: all 2^32 x 2^32 integer pairs, both booleans, null, any heap reference",
                 "method names: the 13 documented operations in both spellings; unknown names of length 1-3 (printable ASCII)",
                 "operand stack: sentinel + receiver + arguments; one constant; two instructions"]
-    p.outside = ["unknown method names longer than 3 bytes or non-ASCII (Kani side)",
+    p.stubs = p.stubs + ["MIR/z3 engine: core functions called by the dispatch tables are modelled from their documented semantics "
+                         "(str ==, integer comparison, checked + - * / % with Rust's panics, wrapping_*/checked_*/saturating_*/euclid "
+                         "variants, Vec::len, slice last/first, Option::unwrap); message and anyhow::Error construction is opaque"]
+    p.outside = ["unknown method names longer than 3 bytes or non-ASCII on the Kani side (the MIR/z3 task covers names of any length)",
+                 "more than 3 call arguments on the MIR/z3 side",
                  "MIN % -1 (documented don't-care, DESIGN 4.1)",
                  "running two differently built binaries: build independence is argued from the absence of any reachable "
                  "profile-dependent check (overflow / debug assertion) in the kernels"]
@@ -77,8 +82,8 @@ def c09():
 
 
 SER_SHAPES = (["prim", "opcode", "int", "bool", "null", "slot"] + ["utf8_%d" % n for n in range(5)] + ["string%d" % n for n in range(5)]
-              + ["class%d" % n for n in range(4)] + ["method%d" % n for n in range(4)] + ["program_a", "program_b", "program_c"])
-SER_QUICK = {"prim", "opcode", "int", "bool", "slot", "utf8_2", "string0", "string3", "class2", "method2", "program_a", "program_c"}
+              + ["class%d" % n for n in range(4)] + ["method%d" % n for n in range(4)] + ["framing"])
+SER_QUICK = {"prim", "opcode", "int", "bool", "slot", "utf8_2", "string0", "string3", "class2", "method2", "framing"}
 SER_FUNCS = ["bytecode::serializable::{write_u8,write_bool,write_u16,write_u32,write_i32,write_utf8,write_u16_vector,"
              "read_u8,read_bool,read_u16,read_u32,read_i32,read_utf8,read_u16_vector}",
              "<OpCode as Serializable>::{serialize,from_bytes}", "OpCode::{write_opcode_vector,read_opcode_vector,to_hex}",
@@ -91,34 +96,37 @@ SER_BOUNDS = ["primitives: every u8, bool, u16, u32, i32 value",
               "instructions: all 17 kinds (kind symbolic) x every u16 / u8 operand value",
               "constants: integer/boolean/null/slot (kind symbolic, all payloads); string 0-4 bytes; class of 0-3 members; "
               "method of 0-3 instructions with symbolic kinds, name, arity, locals",
-              "programs: three fixed layouts (3, 5 and 2 constants; 1, 2 and 0 globals; two methods whose code order matters; "
-              "one label/goto pair) with every content symbolic"]
+              "program framing: pool of two concrete integers, two globals and the entry index symbolic (count prefixes, pool "
+              "order, pool/globals/entry order)"]
+SER_NOT_COVERED = ["whole programs with a mixed constant pool (string + method + slot ...) and the label table that Program::from_bytes "
+                   "derives: an enum read back from a Vec of different variants loses its discriminant for CBMC and the run exhausts "
+                   "8-24 GB (DESIGN 2); composition is checked on a homogeneous concrete pool only"]
 SER_OUTSIDE = ["strings longer than 4 bytes, classes of more than 3 members, methods of more than 3 instructions, pools of more than 5 constants",
                "programs whose method address ranges are not contiguous in pool order (no compiler output has that shape)",
                "NamedSink in main.rs (one-line delegation to the wrapped writer) and the real stdout pipe"]
 
 
 def ser_shape_timeout(shape):
-    return 1500 if shape.startswith("program") else 900
+    return 900
 
 
 def ser_shape_mem(shape):
-    return 24 if shape.startswith("program") else 12
+    return 12
 
 
 def c03():
     p = Prop("C03")
     for sh in SER_SHAPES:
-        p.add("h_ser::ser_%s_roundtrip" % sh, quick=sh in SER_QUICK, timeout=ser_shape_timeout(sh), mem_gb=ser_shape_mem(sh), weight=(3 if sh.startswith("program") else 1),
+        p.add("h_ser::ser_%s_roundtrip" % sh, quick=sh in SER_QUICK, timeout=ser_shape_timeout(sh), mem_gb=ser_shape_mem(sh), 
               drives=["serialize", "from_bytes"], bound="shape %s: sizes concrete, every content symbolic" % sh)
-    p.functions, p.bounds, p.outside = SER_FUNCS, SER_BOUNDS, SER_OUTSIDE
+    p.functions, p.bounds, p.outside, p.not_covered = SER_FUNCS, SER_BOUNDS, SER_OUTSIDE, SER_NOT_COVERED
     return p
 
 
 def c04():
     p = Prop("C04")
     for sh in SER_SHAPES:
-        p.add("h_ser::ser_%s_layout" % sh, quick=sh in SER_QUICK, timeout=ser_shape_timeout(sh), mem_gb=ser_shape_mem(sh), weight=(3 if sh.startswith("program") else 1),
+        p.add("h_ser::ser_%s_layout" % sh, quick=sh in SER_QUICK, timeout=ser_shape_timeout(sh), mem_gb=ser_shape_mem(sh), 
               drives=["serialize"], bound="shape %s: real writer = reference encoder, byte for byte" % sh)
     dec = ["prim", "opcode", "int", "bool", "null", "slot"] + ["string%d" % n for n in range(5)] + \
           ["class%d" % n for n in range(4)] + ["method%d" % n for n in range(4)]
@@ -127,21 +135,20 @@ def c04():
               drives=["from_bytes"], bound="shape %s: every buffer of the documented layout (structure concrete, payload symbolic)" % sh)
     p.add("h_ser::ser_opcode_reject", quick=True, timeout=600, allow=["Cannot deserialize opcode: unknown tag"],
           bound="opcode numbers 0x11-0xff: rejected (the reader's rejection is a panic)")
-    p.add("h_ser::ser_program_mirror_agrees", quick=True, timeout=600, bound="oracle self-check: literal program layouts = mirror layouts")
     p.add("h_ser::ser_utf8_predicate_exact", quick=False, timeout=900, bound="harness-side UTF-8 predicate = std::str::from_utf8 on all inputs of 0-4 bytes")
     p.add("h_ser::ser_constant_reject", quick=True, timeout=600,
           allow=["Cannot deserialize value: unrecognized value tag", "Problem reading boolfrom data stream"],
           bound="constant tags 0x07-0xff and boolean bytes 2-255: rejected")
-    p.functions, p.bounds, p.outside = SER_FUNCS, SER_BOUNDS, SER_OUTSIDE
+    p.functions, p.bounds, p.outside, p.not_covered = SER_FUNCS, SER_BOUNDS, SER_OUTSIDE, SER_NOT_COVERED
     return p
 
 
 def c08():
     p = Prop("C08")
     for sh in SER_SHAPES:
-        p.add("h_ser::ser_%s_shortwrite" % sh, quick=sh in SER_QUICK, timeout=ser_shape_timeout(sh), mem_gb=ser_shape_mem(sh), weight=(3 if sh.startswith("program") else 1),
+        p.add("h_ser::ser_%s_shortwrite" % sh, quick=sh in SER_QUICK, timeout=ser_shape_timeout(sh), mem_gb=ser_shape_mem(sh), 
               drives=["serialize"], bound="shape %s under every short-write schedule: each write call accepts a solver-chosen k, 1 <= k <= len" % sh)
-    p.functions, p.outside = SER_FUNCS, SER_OUTSIDE
+    p.functions, p.outside, p.not_covered = SER_FUNCS, SER_OUTSIDE, SER_NOT_COVERED
     p.bounds = SER_BOUNDS + ["sink: std::io::Write impl that accepts an independently solver-chosen non-empty prefix at every call and "
                              "never errors; this subsumes every per-call limit k and a short write at each individual call"]
     return p
